@@ -232,6 +232,21 @@ def itEq (k : Kind) (a b : Int) : Int := if k.planar && !k.xstep && !k.virt then
 /-- `it[d]`: `memunit_advanced_ref(it, d * sizeof(channel_t))` -- every channel pointer advanced by the same byte offset -/
 def planarIndex (c : Int) (ps : List Int) (d : Int) : List Int := ps.map fun p => ptr_memunit_advanced p (planar_index_bytes d c)
 
+/-- which channel pointer of a planar iterator the `(ptr, diff)` constructor of `homogeneous_color_base<.,.,n>` binds member `k` to (generated) -/
+def refPlane (n k : Nat) : Int :=
+  match n, k with
+  | 2, 0 => hcb_ref_plane_2_0 | 2, 1 => hcb_ref_plane_2_1
+  | 3, 0 => hcb_ref_plane_3_0 | 3, 1 => hcb_ref_plane_3_1 | 3, 2 => hcb_ref_plane_3_2
+  | 4, 0 => hcb_ref_plane_4_0 | 4, 1 => hcb_ref_plane_4_1 | 4, 2 => hcb_ref_plane_4_2 | 4, 3 => hcb_ref_plane_4_3
+  | 5, 0 => hcb_ref_plane_5_0 | 5, 1 => hcb_ref_plane_5_1 | 5, 2 => hcb_ref_plane_5_2 | 5, 3 => hcb_ref_plane_5_3 | 5, 4 => hcb_ref_plane_5_4
+  | _, k => k
+
+/-- `memunit_advanced_ref(it, diff)` of a planar iterator with channel pointers `ps`: the planar reference whose channel `k` is
+    `*memunit_advanced(<channel pointer refPlane n k>, diff)` -- what `view(x,y)`, `loc(dx,dy)`, `loc[point]`, `loc[cached_location]` and the raw
+    iterator's `it[d]` return -/
+def planarRef (ps : List Int) (diff : Int) : List Int :=
+  (List.range ps.length).map fun k => ptr_memunit_advanced (ps.getD (refPlane ps.length k).toNat 0) diff
+
 /-- `it + d`: `plus_asymmetric` adds `d` to every channel pointer (pointer arithmetic: `d * sizeof(channel_t)` bytes) -/
 def planarAdvance (c : Int) (ps : List Int) (d : Int) : List Int := ps.map fun p => p + d * c
 
